@@ -6,7 +6,7 @@ set -e
 WT="$1"; shift
 SV="/tmp/sv/$(basename $(dirname $WT))"
 mkdir -p "$SV"
-rsync -a --delete --exclude work --exclude harness/target --exclude 'lean/.lake/build/ir' /verif/ "$SV/verif/"
+rsync -a --delete --exclude work --exclude harness/target /verif/ "$SV/verif/"
 cd "$SV/verif"
 grep -rl '/repo' harness/Cargo.toml harness/src | xargs sed -i "s#/repo#$WT#g"
 for id in "$@"; do
